@@ -86,7 +86,7 @@ def _spec_candidates(spec):
         for i in range(len(th)):
             for j, o in enumerate(th[i]):
                 t = o.get("task")
-                if t:
+                if t and not o.get("keep"):
                     if t.get("dur"):
                         c = copy.deepcopy(spec)
                         c["threads"][i][j]["task"]["dur"] = 0
